@@ -51,7 +51,7 @@ class ClobberTracker(Tracker):
             c = c.kids[0].strip()
         if c.k == "BinaryOperator" and c.op in ("==", "!="):
             a, b = c.kids[0].strip(), c.kids[1].strip()
-            if a.k == "BinaryOperator" and a.op == "=":
+            while a.k == "BinaryOperator" and a.op == "=":    # also `p = q = calloc(..)`
                 a = a.kids[1].strip()
             while a.k in ("CStyleCastExpr", "ParenExpr"):
                 a = a.kids[0].strip()
